@@ -517,12 +517,30 @@ def load_targets():
 FIXTURE_PROP = "FIX"    # functions of harness/src/props/fn_gen_fixture.rs: differential test of the translator only
 
 
+def _json_plan(tg):
+    """json form of a target block (round 9, b0103): `"normalise": {"Impl::fn": [rule names]}`, `"rules": {name: [regex,
+    replacement, what is trusted, count?]}` (a regex that must see several lines starts with `(?s)`; a rule name must not
+    clash with a rule of RULES unless it is the same rule), `"arms"`: see translate/fn_arms.py"""
+    for rn, r in (tg.get("rules") or {}).items():
+        r = tuple(r)
+        if rn in RULES and tuple(RULES[rn]) != r:
+            raise ExtractError("x_fn: area %s: normalisation rule %r is already defined differently" % (tg["area"], rn))
+        RULES[rn] = r
+    norm = tg.get("normalise")
+    if norm:
+        norm = {(((k.rpartition("::")[0] or None), k.rpartition("::")[2]) if isinstance(k, str) else k): v for k, v in norm.items()}
+    return norm
+
+
 def unit_for(repo, tg):
+    norm = _json_plan(tg)
+    import fn_arms
     u = Unit(repo, tg["rel"], "VlsModel.Gen.Fn" + tg["area"], tg.get("consts", ()), tg.get("externals", {}),
              tg.get("structs", ()), foreign_structs=tg.get("foreign_structs"), tuple_structs=tg.get("tuple_structs"),
              fn_files=tg.get("fns_from", ()),
              views=tg.get("views"), error_ctors=tg.get("error_ctors"), compact_guards=bool(tg.get("compact_guards")), any_order=bool(tg.get("any_order")),
-             rewrite=make_rewriter(tg["rel"], tg["normalise"]) if tg.get("normalise") else None)
+             rewrite=fn_arms.compose(fn_arms.make_arm_splitter(tg["rel"], tg["arms"]) if tg.get("arms") else None,
+                                     make_rewriter(tg["rel"], norm) if norm else None))
     u.log_macros = tuple(tg.get("log_macros", ()))     # declared logging-only macros of the file
     return u
 
@@ -551,12 +569,25 @@ def census(repo, tgs=None, units=None):
             u = Unit(repo, rel, "VlsModel.Census")
         except (RsError, OSError) as e:
             out[rel] = {"properties": props_of[rel], "error": "cannot be indexed: %s" % e}; continue
-        rows = []
+        rows, arm_rows = [], []
         for (impl, name), k in sorted(u.fi.fns.items(), key=lambda kv: kv[1] if isinstance(kv[1], int) else 0):
             qn = (impl + "::" if impl else "") + name
             line_no = u.fi.toks[k].line if isinstance(k, int) else 0
             if (impl, name) in u.fi.decl_only:
                 rows.append({"fn": qn, "line": line_no, "status": "declaration"}); continue
+            # arms of a dispatching `match` translated as methods of their own (translate/fn_arms.py): one extra row per
+            # declared arm, named `Impl::fn[Variant]`; the row of the function itself stays what it is
+            for tg in tgs:
+                sp = (tg.get("arms") or {}).get(qn) if tg["rel"] == rel else None
+                for v, a in (sp["arms"].items() if sp else ()):
+                    tu = (units or {}).get(tg["area"])
+                    ok = tu is not None and (impl, a["fn"]) in tu.fns
+                    tt = [t for t in tg["fns"] if (t[0] or None) == impl and t[1] == a["fn"]]
+                    thm = tt[0][3] if tt else None
+                    arm_rows.append({"fn": "%s[%s::%s]" % (qn, sp["enum"], v), "line": tu.fns[(impl, a["fn"])].line if ok else line_no, "area": tg["area"],
+                                     "status": ("tied" if thm else "translated") if ok else "not translatable",
+                                     **({"property": tt[0][2]} if tt else {}), **({"theorem": thm} if thm and ok else {}),
+                                     **({} if ok else {"why": (tu.failed.get((impl, a["fn"])) if tu else "unit missing")})})
             ties = tied.get((rel, impl, name))
             if ties:
                 # the target's own unit (externals/struct files) decides
@@ -579,6 +610,7 @@ def census(repo, tgs=None, units=None):
             else:
                 why = re.sub(r"^([\w:]+: )+", "", str(why))
                 rows.append({"fn": qn, "line": line_no, "status": "not translatable", "why": why[:200]})
+        rows += arm_rows
         cnt = lambda st: sum(1 for r in rows if r["status"] == st)
         out[rel] = {"properties": props_of[rel], "fns": len(rows), "tied": cnt("tied"), "translated_untied": cnt("translated"),
                     "not_translatable": cnt("not translatable"), "declarations": cnt("declaration"), "list": rows}
